@@ -8,7 +8,8 @@ import (
 var (
 	KeyAssetParams = []byte("AssetParams") // asset params key
 
-	DefaultPreviousBlockTime = time.Now()
+	// a fixed instant: the default must be the same on every node and in every process
+	DefaultPreviousBlockTime = time.Unix(1, 0).UTC()
 )
 
 // ParamKeyTable returns the TypeTable for coinswap module
